@@ -135,7 +135,7 @@ func vfC14Gen(rt *rapid.T) vfC14Case {
 			return op
 		}
 	})
-	c.Ops = rapid.SliceOfN(opGen, 1, 40).Draw(rt, "ops")
+	c.Ops = vfListOf(rt, "ops", opGen, 1, 40)
 	var q []float32
 	if kind == Cosine {
 		q = g.drawNonZero(rt, "q")
@@ -188,6 +188,7 @@ func vfRecon(view *vfPQView, code []int) []float64 {
 }
 
 func vfC14Run(c vfC14Case, ctx *vfCtx) *vfViolation {
+	ctx.HistoryLen("history", len(c.Ops))
 	kind := DistanceKind(c.Metric)
 	dim := c.M * c.Dsub
 	var idx VectorIndex
